@@ -37,9 +37,9 @@ type FieldInfo struct {
 type e3Result struct {
 	callers map[*ssa.Function][]ssa.Instruction // synchronous in-module call sites
 	open    map[*ssa.Function]bool              // callable from outside / asynchronously
-	entry  map[*ssa.Function]map[string]bool
-	fields map[string]*FieldInfo
-	keys   []string
+	entry   map[*ssa.Function]map[string]bool
+	fields  map[string]*FieldInfo
+	keys    []string
 }
 
 // EntryLocks returns the abstract locks that are held at every synchronous call site of
